@@ -32,6 +32,19 @@ CHECKS = {
         design_ref="DESIGN.md section 5, C08",
         note=NOTE_COMMON + "Modelled, not verified: SQLite execution (oracle only). Known findings are matched by trigger predicates (harness/triggers.py).",
     ),
+    "C03": dict(
+        technique="Lean 4 proof: theorems that the backend formulas over modelled engine primitives equal the documented operator meaning for all "
+                  "operands; hand-written operator model tied to Polars and SQLite by an exhaustive boundary-grid correspondence",
+        text="Pdt/Props/C03.lean proves for all integers that Polars' sign-fixing formulas for // and % are truncated division and the remainder with "
+             "the dividend's sign (polars_floordiv_eq_spec, polars_mod_eq_spec, floordiv_mod_identity); that SQLite's divide-and-conquer "
+             "coalesce(MAX(l,r),l,r) equals the null-skipping horizontal max/min for every arity (sqlite_horizontal_max/min, by strong induction); the "
+             "Kleene tables, De Morgan, SQL xor-as-!=, null propagation of arithmetic/comparisons, is_in = or-chain (False for the empty list), coalesce, "
+             "fill_null, clip. The model Ops.ew is run against Polars and SQLite on a boundary grid for every modelled overload as column-column, "
+             "column-literal and nested expressions. Partial: float-valued results and transcendental/round/pow/date operators are compared or listed "
+             "as not covered, not proved.",
+        design_ref="DESIGN.md section 5, C03",
+        note=NOTE_COMMON + "Engine primitives (Polars floor division and modulo, SQLite scalar MAX/MIN/COALESCE/IN) are modelled definitions validated by the grid only.",
+    ),
 }
 
 NOT_YET = "check not built yet in this revision of /verif (model and theorems planned in DESIGN.md section 5)"
